@@ -13,16 +13,20 @@ func init() {
 				"jpeg":    "SOI, k<=2 segments (marker symbolic in APP0-15/COM/DQT/DHT/DRI, payload length in {0,1,4}), SOF0|SOF2 with Nf in {1,3,4} (all frame-header bytes symbolic), SOS",
 				"webp":    "VP8 (30 bytes + {0,5,10} trailing), VP8L (25 bytes + trailing), VP8X without ICC flag (30 bytes + trailing); RIFF size field, frame tag, scale bits, alpha/version bits symbolic",
 				"auto":    "same skeletons through autometa.Load with k<=1",
-				"outside": "more than 2 ancillary chunks/segments, payloads longer than 5 bytes, multi-SOF files, DecodeConfig cross-check of the standard decoders (the oracle here is the byte layout of the container specifications)",
+				"thorough": "k<=3 ancillary chunks/segments", "outside": "more than 2 (thorough 3) ancillary chunks/segments, payloads longer than 5 bytes, multi-SOF files, DecodeConfig cross-check of the standard decoders (the oracle here is the byte layout of the container specifications)",
 			}
 		},
 		Runs: func(tier string, seed int64) []*Run {
+			k := map[string]int64{"verifC05K": 3}
+			if tier == "thorough" {
+				k = map[string]int64{"verifC05K": 4}
+			}
 			return []*Run{
 				{H: sym.Harness{Pkg: "meta/webpmeta", Func: "VerifHarness_C05_VP8"}, ExpectReach: []string{"vp8-parsed"}, SamplePaths: 2},
 				{H: sym.Harness{Pkg: "meta/webpmeta", Func: "VerifHarness_C05_VP8L"}, ExpectReach: []string{"vp8l-parsed"}, SamplePaths: 2},
 				{H: sym.Harness{Pkg: "meta/webpmeta", Func: "VerifHarness_C05_VP8X"}, ExpectReach: []string{"vp8x-parsed"}, SamplePaths: 2},
-				{H: sym.Harness{Pkg: "meta/pngmeta", Func: "VerifHarness_C05_PNG"}, ExpectReach: []string{"png-parsed"}, SamplePaths: 3},
-				{H: sym.Harness{Pkg: "meta/jpegmeta", Func: "VerifHarness_C05_JPEG"}, ExpectReach: []string{"jpeg-parsed"}, SamplePaths: 3},
+				{H: sym.Harness{Pkg: "meta/pngmeta", Func: "VerifHarness_C05_PNG", SetGlobals: k, Workers: 14}, ExpectReach: []string{"png-parsed"}, SamplePaths: 3},
+				{H: sym.Harness{Pkg: "meta/jpegmeta", Func: "VerifHarness_C05_JPEG", SetGlobals: k, Workers: 14}, ExpectReach: []string{"jpeg-parsed"}, SamplePaths: 3},
 				{H: sym.Harness{Pkg: "meta/autometa", Func: "VerifHarness_C05_AutoPNG"}, ExpectReach: []string{"auto-png"}, SamplePaths: 1},
 				{H: sym.Harness{Pkg: "meta/autometa", Func: "VerifHarness_C05_AutoJPEG"}, ExpectReach: []string{"auto-jpeg"}, SamplePaths: 1},
 				{H: sym.Harness{Pkg: "meta/autometa", Func: "VerifHarness_C05_AutoWebP"}, ExpectReach: []string{"auto-webp"}, SamplePaths: 3},
